@@ -219,6 +219,22 @@ class DepartureRun(PubSubRun):
         if second is None:
             second = ch.weighted("dep.second", [(3, "none"), (2, "fin"), (2, "wfault"), (1, "rst"), (1, "disconnect")])
         self.res.enumerated.setdefault("stage_way", set()).add(f"{stage}/{way}/{second}")
+        hist = f.get("history") or (ch.choose("dep.history", [300, 1100]) if ch.flag("dep.long_history", 1, 40) else 0)
+        if hist:
+            # the manager has a long life behind it: many hundreds of clients have come and gone already
+            self.w.quiesce_limit = 10 ** 5
+            for i in range(hist):
+                x = Actor(self.w, "old")
+                x.open()
+                if i % 3 == 0:
+                    x.handshake("v2v1", req_id=0, name=b"")
+                    self.w.quiesce()
+                x.leave("fin" if i % 2 else "rst")
+                if i % 16 == 15:
+                    self.w.quiesce()
+            self.w.quiesce()
+            self.res.probes["long_manager_history"] += 1
+            self.t(f"{hist} clients have come and gone before")
         vname = ch.weighted("dep.vname", [(6, b"victim"), (1, b"caf\xc3\xa9"), (1, b"\xff\xfe"), (1, b"v[/]\\"),
                                           (2, b"abcdefghijklmnopqrstuvwxyz012345"), (1, b"a name with blanks ")])
         v = self.make_victim(stage, 30, vname)
@@ -426,4 +442,7 @@ def det_cases(tier):
                                       second=("wfault" if k % 3 == 0 else "none")))
     if tier == "quick":
         cases = cases[::17]
+    # a departure and an immediate reuse of id and name after a long manager life
+    for way in ("fin", "disconnect"):
+        cases.append(dict(stage="sub_types", way=way, second="none", rep=0, history=1100))
     return cases
